@@ -664,6 +664,8 @@ def tyclass(toks):
     for t in toks:
         s.update(t.split("::"))
     isvec = "vector" in s or "initializer_list" in s
+    if "initializer_list" in s:
+        return "varinit" if s & {"Var", "Node", "Tensor"} else "idsinit"
     if s & {"Var", "Node", "Tensor"}:
         if isvec:
             return "varptrs" if "*" in s else "vars"
@@ -1026,7 +1028,8 @@ class Flat:
         self.calls = []
         self.branches = []
         self.ntemp = 0
-        self.loop = ""
+        self.loop = ""      # bound term of the enclosing counted loop, ":gx" for a range-for over gx
+        self.lvar = ""      # its variable
         self.loopvar = None
         self.idx = {v: None for v in VEC_NAMES}   # None | int | ('all', bound)
         self.yset, self.ysetall = [], ""
@@ -1042,7 +1045,8 @@ class Flat:
 
     def emit(self, dst, mode, kind, name, recv="", args=(), cargs=()):
         self.calls.append({"dst": dst, "mode": mode, "kind": kind, "name": name, "recv": recv,
-                           "args": list(args), "cargs": list(cargs), "loop": self.loop})
+                           "args": list(args), "cargs": list(cargs), "loop": self.loop, "lvar": self.lvar,
+                           "ty": self.tyof(dst) if dst else ""})
 
     def unsupported(self, text):
         self.emit("", "stmt", "unsupported", text)
@@ -1055,7 +1059,7 @@ class Flat:
                 self.idx[v] = n
             return v + str(n)
         if ixe[0] == "id" and ixe[1] == self.loopvar:
-            self.idx[v] = ("all", self.loop.split("<", 1)[1] if "<" in self.loop else "")
+            self.idx[v] = ("all", self.loop if not self.loop.startswith(":") else "")
             return v + "[" + ixe[1] + "]"
         raise ParseError("index of %s is neither a literal nor the loop variable" % v)
 
@@ -1102,7 +1106,7 @@ class Flat:
                 return "#" + n
             if n in self.vecs:
                 self.idx[n] = ("all", "")
-                self.ty[n + "*"] = "vars"
+                self.ty[n + "*"] = "varptrs" if self.xkind == "var" else "shapeptrs"
                 return n + "*"
             if n.startswith("Operator::"):
                 return "#" + n
@@ -1127,6 +1131,8 @@ class Flat:
                 return t           # dereference of a pointer-valued term
             if op == "&":
                 t = self.ex(e[2])
+                if self.tyof(t) in ("dev", "devp"):
+                    return t
                 r = self.temp("ptr")
                 self.emit(r, "set", "arith", "&", args=[t])
                 return r
@@ -1221,7 +1227,7 @@ class Flat:
             if m in PUSH_METHODS:
                 if len(a) != 1:
                     raise ParseError(m + " with %d arguments" % len(a))
-                self.emit(recv + "[]", "push", "copy", "", args=a)
+                self.emit(recv, "push", "copy", "", args=a)
                 return "#void"
             if m in SHAPE_METHODS or m in VAR_METHODS or m in OTHER_METHODS:
                 res = {"shape": "shape", "resize_dim": "shape", "resize_batch": "shape", "device": "dev",
@@ -1247,7 +1253,8 @@ class Flat:
         bare = name[2:] if name.startswith("::") else name
         if bare in HELPERS:
             a = [self.ex(x) for x in args]
-            res = "dev" if "evice" in bare else ("graph" if "Graph" in bare else self.tyof(a[0]) if a else "other")
+            res = "dev" if "evice" in bare else ("graph" if "Graph" in bare else
+                                                {"ptr_to_obj": "vars", "obj_to_ptr": "varptrs"}.get(bare, "other"))
             r = self.temp(res)
             self.emit(r, "set", "helper", bare, args=a)
             return r
@@ -1261,8 +1268,12 @@ class Flat:
                 else:
                     a.append(self.ex(x))
             res = {"Shape": "shape", "primitiv::Shape": "shape", "Tensor": "var", "Node": "var"}.get(bare, "list")
+            if res == "list" and not brace and len(a) == 1:
+                res = self.tyof(a[0])          # std::vector<T>(xs): a copy / conversion of a vector
+                if "*" in (targs or "") and res == "vars":
+                    res = "varptrs"
             r = self.temp(res)
-            self.emit(r, "set", "ctor", bare.split("::")[-1], args=a)
+            self.emit(r, "set", "ctor", "{}" if (brace and res == "list") else bare.split("::")[-1], args=a)
             return r
         if bare.startswith("std::"):
             a = [self.ex(x) for x in args]
@@ -1303,7 +1314,9 @@ class Flat:
         if self.calls and term.startswith("%") and self.calls[-1]["dst"] == term and self.calls[-1]["mode"] == "set" \
                 and self.calls[-1]["loop"] == self.loop:
             self.calls[-1]["dst"] = dst
-            self.ty[dst] = self.ty.get(term, "other")
+            if self.tyof(dst) == "other":
+                self.ty[dst] = self.ty.get(term, "other")
+            self.calls[-1]["ty"] = self.tyof(dst) if self.tyof(dst) != "other" else self.ty.get(term, "other")
             return True
         return False
 
@@ -1344,14 +1357,15 @@ class Flat:
                 self.emit(name, "set", "ctor", "default", args=[])
                 return
             t = self.ex(init)
+            self.ty[name] = tc if tc != "other" else self.tyof(t)
             if not self.retarget(t, name):
                 self.emit(name, "set", "copy", "", args=[t])
-            self.ty[name] = tc if tc != "other" else self.tyof(t)
             return
         if k == "return":
             if s[1] is None:
                 self.emit("", "ret", "copy", "", args=[]); return
             t = self.ex(s[1])
+            self.ty["ret"] = self.tyof(t)
             self.emit("ret", "ret", "copy", "", args=[t])
             return
         if k == "expr":
@@ -1367,7 +1381,7 @@ class Flat:
                 if m and mode == "set":
                     self.yset.append(int(m.group(1)))
                 if dst.startswith("y[") and mode == "set":
-                    self.ysetall = self.loop.split("<", 1)[1] if "<" in self.loop else "?"
+                    self.ysetall = self.loop if self.loop and not self.loop.startswith(":") else "?"
                 if mode == "set" and self.retarget(t, dst):
                     return
                 self.emit(dst, mode, "copy", "", args=[t])
@@ -1407,12 +1421,12 @@ class Flat:
             if not (step == ("unary", "++pre", ("id", v)) or step == ("postfix", "++", ("id", v))):
                 raise ParseError("loop step")
             bound = self.ex(cond[3])
-            self.loop, self.loopvar = v + "<" + bound, v
+            self.loop, self.lvar, self.loopvar = bound, v, v
             self.ty[v] = "u32"
             try:
                 self.stmt_inner(body, False)
             finally:
-                self.loop, self.loopvar = "", None
+                self.loop, self.lvar, self.loopvar = "", "", None
             return
         if k == "rangefor":
             ty, v, rng, body = s[1], s[2], s[3], s[4]
@@ -1422,12 +1436,12 @@ class Flat:
                 raise ParseError("range-for over " + src_of(rng))
             if rng[1] in self.vecs:
                 self.idx[rng[1]] = ("all", "")
-            self.loop, self.loopvar = v + ":" + rng[1], None
+            self.loop, self.lvar, self.loopvar = ":" + rng[1], v, None
             self.ty[v] = "var"
             try:
                 self.stmt_inner(body, False)
             finally:
-                self.loop = ""
+                self.loop, self.lvar = "", ""
             return
         raise ParseError("statement " + k)
 
@@ -1548,13 +1562,18 @@ def translate_ops(defined, known):
             op["ctorInit"].append(("?", "unsupported: no constructor found"))
         # inner values
         op["innerCount"] = 0
-        giv = m.get("get_inner_values") or by_cls.get(c.name, {}).get("get_inner_values")
+        op["innerBody"] = []
+        giv = by_cls.get(c.name, {}).get("get_inner_values")
+        if giv is None or giv.body is None:
+            giv = m.get("get_inner_values")
         if op["inner"]:
-            e = None
             if giv is not None and giv.body is not None:
                 ss = parse_body(giv.body)
                 if len(ss) == 1 and ss[0][0] == "return" and ss[0][1] is not None and ss[0][1][0] == "call" and ss[0][1][4]:
                     op["innerCount"] = len(ss[0][1][2])
+                op["innerBody"] = flatten_fn(giv, known, c.fields, kind="fn")[1]
+            else:
+                op["innerBody"] = [{"pre": [], "cond": "", "body": [call_unsupported("missing get_inner_values of " + c.name)]}]
         # rules
         for key, mname, xk in (("fwdShape", "forward_shape", "shape"), ("fwd", "forward", "var"), ("bwd", "backward", "var")):
             f = by_cls.get(c.name, {}).get(mname)
@@ -1573,13 +1592,13 @@ def translate_ops(defined, known):
 
 
 def call_unsupported(text):
-    return {"dst": "", "mode": "stmt", "kind": "unsupported", "name": text, "recv": "", "args": [], "cargs": [], "loop": ""}
+    return {"dst": "", "mode": "stmt", "kind": "unsupported", "name": text, "recv": "", "args": [], "cargs": [], "loop": "", "lvar": "", "ty": ""}
 
 
 def translate_fns(path, defined, known, want=None, cls_filter=None):
     toks = preprocess(read(path), defined)
     if "__UNSUPPORTED_DIRECTIVE__" in toks:
-        return [{"ns": "", "name": path, "params": [], "body": [{"pre": [], "cond": "", "body": [call_unsupported("#if/#elif directive in " + path)]}]}]
+        return [{"ns": "", "name": path, "targ": "", "params": [], "body": [{"pre": [], "cond": "", "body": [call_unsupported("#if/#elif directive in " + path)]}]}]
     funcs, _ = parse_toplevel(toks)
     out = []
     for f in funcs:
@@ -1602,7 +1621,17 @@ def translate_fns(path, defined, known, want=None, cls_filter=None):
         if want is not None and not want(f):
             continue
         r = flatten_fn(f, known)
-        out.append({"ns": ns, "name": f.name, "params": [{"name": p["name"], "ty": p["ty"]} for p in f.params], "body": r[1]})
+        targ = (f.targs or "").strip()
+        if not targ and f.template is not None:
+            if f.template.strip() == "":
+                # full specialisation: the variable type is the return type
+                targ = "Node" if "Node" in f.ret.split() or "std::vector<Node>" in f.ret.replace(" ", "") else \
+                       ("Tensor" if "Tensor" in f.ret.replace("<", " ").replace(">", " ").split() else "")
+            elif "Var" in f.template.split():
+                targ = "Var"
+            elif "Container" in f.template.split():
+                targ = "Container"
+        out.append({"ns": ns, "name": (ns + "::" if ns and ns not in ("(anon)", "Device", "Tensor") else "") + f.name, "targ": targ, "params": [{"name": p["name"], "ty": p["ty"]} for p in f.params], "body": r[1]})
     return out
 
 
@@ -1619,6 +1648,8 @@ def build_table(defined):
     t["arithFns"] = translate_fns("primitiv/core/arithmetic.h", defined, known, want=lambda f: f.name.startswith("operator"))
     t["sharedFns"] = translate_fns("primitiv/contrib/functions.h", defined, known,
                                    want=lambda f: f.name in SHARED_NAMES and not any(p["ty"] == "container" for p in f.params))
+    t["basicFns"] = translate_fns("primitiv/core/basic_functions.h", defined, known,
+                                  want=lambda f: not any(p["ty"] in ("container", "varinit", "idsinit") for p in f.params))
     t["fronts"] = translate_fns("primitiv/core/device.cc", defined, known, cls_filter="Device",
                                 want=lambda f: f.ret.split()[-1:] == ["Tensor"])
     t["tmethods"] = translate_fns("primitiv/core/tensor.cc", defined, known, cls_filter="Tensor",
@@ -1638,8 +1669,9 @@ def llist(items):
 
 
 def lcall(c):
-    return "⟨%s, %s, %s, %s, %s, %s, %s, %s⟩" % (lstr(c["dst"]), lstr(c["mode"]), lstr(c["kind"]), lstr(c["name"]), lstr(c["recv"]),
-                                              llist(lstr(a) for a in c["args"]), llist(lstr(a) for a in c["cargs"]), lstr(c["loop"]))
+    # Call: ⟨dst, ty, mode, kind, name, recv, args, cargs, loop, lvar⟩
+    return "⟨%s, %s, %s, %s, %s, %s, %s, %s, %s, %s⟩" % (lstr(c["dst"]), lstr(c["ty"]), lstr(c["mode"]), lstr(c["kind"]), lstr(c["name"]), lstr(c["recv"]),
+                                                      llist(lstr(a) for a in c["args"]), llist(lstr(a) for a in c["cargs"]), lstr(c["loop"]), lstr(c["lvar"]))
 
 
 def lbranch(b, ind):
@@ -1648,7 +1680,8 @@ def lbranch(b, ind):
         if not cs:
             return "[]"
         return "[\n" + ",\n".join(pad + "    " + lcall(c) for c in cs) + "]"
-    return "{ pre := %s,\n%s  cond := %s,\n%s  body := %s }" % (calls(b["pre"]), pad, lstr(b["cond"]), pad, calls(b["body"]))
+    # Branch: ⟨pre, cond, body⟩
+    return "⟨%s,\n%s  %s,\n%s  %s⟩" % (calls(b["pre"]), pad, lstr(b["cond"]), pad, calls(b["body"]))
 
 
 def lbody(br, ind):
@@ -1665,7 +1698,8 @@ def lidx(v):
 
 
 def lrule(r):
-    return ("{ body := %s,\n      x := %s, y := %s, gx := %s, gy := %s, ySet := %s, ySetAll := %s }"
+    # Rule: ⟨body, x, y, gx, gy, ySet, ySetAll⟩
+    return ("⟨%s,\n      %s, %s, %s, %s, %s, %s⟩"
             % (lbody(r["body"], 8), lidx(r["x"]), lidx(r["y"]), lidx(r["gx"]), lidx(r["gy"]),
                llist(str(n) for n in r["yset"]), lstr(r["ysetall"])))
 
@@ -1681,20 +1715,22 @@ def lop(o):
     r = o["retn"]
     retn = {"num": lambda: "(.num %d)" % r[1], "attr": lambda: "(.attr %s)" % lstr(r[1]),
             "unsupported": lambda: "(.unsupported %s)" % lstr(r[1])}[r[0]]()
-    return ("{ name := %s, argn := %s, retn := %s, innerValues := %s, device := %s,\n"
-            "    attrs := %s,\n    ctorParams := %s,\n    ctorInit := %s,\n    ctorBody := %s,\n"
-            "    innerCount := %d, hasForward := %s,\n    fwdShape := %s,\n    fwd := %s,\n    bwd := %s }"
+    # Op: ⟨name, argn, retn, innerValues, device, attrs, ctorParams, ctorInit, ctorBody, innerCount, innerBody, hasForward, fwdShape, fwd, bwd⟩
+    return ("⟨%s, %s, %s, %s, %s,\n"
+            "    %s,\n    %s,\n    %s,\n    %s,\n"
+            "    %d, %s, %s,\n    -- FWD_SHAPE\n    %s,\n    -- FORWARD\n    %s,\n    -- BACKWARD\n    %s⟩"
             % (lstr(o["name"]), argn, retn, "true" if o["inner"] else "false", lstr(o["device"]),
                llist("⟨%s, %s⟩" % (lstr(x["name"]), lstr(x["ty"])) for x in o["attrs"]),
                lparams(o["ctorParams"]),
                llist("(%s, %s)" % (lstr(k), lstr(v)) for k, v in o["ctorInit"]),
                lbody(o["ctorBody"], 8),
-               o["innerCount"], "true" if o["hasForward"] else "false",
+               o["innerCount"], lbody(o["innerBody"], 8), "true" if o["hasForward"] else "false",
                lrule(o["fwdShape"]), lrule(o["fwd"]), lrule(o["bwd"])))
 
 
 def lfn(f):
-    return "{ ns := %s, name := %s, params := %s,\n    body := %s }" % (lstr(f["ns"]), lstr(f["name"]), lparams(f["params"]), lbody(f["body"], 8))
+    # Fn: ⟨ns, name, targ, params, body⟩
+    return "⟨%s, %s, %s, %s,\n    %s⟩" % (lstr(f["ns"]), lstr(f["name"]), lstr(f["targ"]), lparams(f["params"]), lbody(f["body"], 8))
 
 
 def emit_list(name, ty, items, render, chunk=12):
@@ -1720,7 +1756,7 @@ def render(tables):
            "set_option maxRecDepth 4096",
            ""]
     fields = [("ops", "Op", lop), ("nodeFns", "Fn", lfn), ("tensorFns", "Fn", lfn), ("arithFns", "Fn", lfn),
-              ("sharedFns", "Fn", lfn), ("fronts", "Fn", lfn), ("tmethods", "Fn", lfn)]
+              ("sharedFns", "Fn", lfn), ("basicFns", "Fn", lfn), ("fronts", "Fn", lfn), ("tmethods", "Fn", lfn)]
     for key, ty, r in fields:
         out.append(emit_list(key, ty, plain[key], r))
         if cache[key] != plain[key]:
@@ -1746,9 +1782,9 @@ def render(tables):
         else:
             out.append("def %sCache : List %s := %s\n" % (key, ty, key))
     out.append("/-- PRIMITIV_USE_CACHE off (the default build). -/")
-    out.append("def table : Table := ⟨ops, nodeFns, tensorFns, arithFns, sharedFns, fronts, tmethods⟩")
+    out.append("def table : Table := ⟨ops, nodeFns, tensorFns, arithFns, sharedFns, basicFns, fronts, tmethods⟩")
     out.append("/-- PRIMITIV_USE_CACHE on. -/")
-    out.append("def tableCache : Table := ⟨opsCache, nodeFnsCache, tensorFnsCache, arithFnsCache, sharedFnsCache, frontsCache, tmethodsCache⟩")
+    out.append("def tableCache : Table := ⟨opsCache, nodeFnsCache, tensorFnsCache, arithFnsCache, sharedFnsCache, basicFnsCache, frontsCache, tmethodsCache⟩")
     out.append("")
     out.append("end Primitiv.Gen.OpTable")
     return "\n".join(out) + "\n"
@@ -1794,11 +1830,12 @@ def unsupported_entries(tables=None):
                 if v.startswith("unsupported"):
                     res.append((cfg + ":" + o["name"] + ".ctor", k))
             scan(o["name"] + ".ctor", o["ctorBody"])
+            scan(o["name"] + ".get_inner_values", o["innerBody"])
             for k in ("fwdShape", "fwd", "bwd"):
                 scan(o["name"] + "." + k, o[k]["body"])
-        for key in ("nodeFns", "tensorFns", "arithFns", "sharedFns", "fronts", "tmethods"):
+        for key in ("nodeFns", "tensorFns", "arithFns", "sharedFns", "basicFns", "fronts", "tmethods"):
             for f in t[key]:
-                scan(key + ":" + (f["ns"] + "::" if f["ns"] else "") + f["name"], f["body"])
+                scan(key + ":" + f["name"], f["body"])
     return res
 
 
@@ -1824,7 +1861,7 @@ def selftest():
     fl = Flat("rule", [{"name": "x", "ty": "shapeptrs"}, {"name": "y", "ty": "shapeptrs"}], [{"name": "dim_", "ty": "u32"}], "", set(), xkind="shape")
     br = fl.run(parse_body(tokenize("*y[0] = shape_ops::slice(*x[1], dim_, 0, 1);")))
     assert br == [{"pre": [], "cond": "", "body": [{"dst": "y0", "mode": "set", "kind": "shape", "name": "slice", "recv": "",
-                                                    "args": ["x1", "dim_", "#0", "#1"], "cargs": [], "loop": ""}]}], br
+                                                    "args": ["x1", "dim_", "#0", "#1"], "cargs": [], "loop": "", "lvar": "", "ty": "shape"}]}], br
     assert fl.idx["x"] == 1 and fl.yset == [0]
     return True
 
